@@ -65,3 +65,5 @@ N("c18-n-split-two-statements", "C18", A, RC, "            if len(chunk) > max_b
 N("c18-n-clear-flip", "C18", A, RC, "            if not self._protocol.read_queue:\n                self._protocol.read_event.clear()", "            if self._protocol.read_queue:\n                pass\n            else:\n                self._protocol.read_event.clear()")
 N("c18-n-wait-cond-order", "C18", A, RC, "                not self._protocol.read_event.is_set()\n                and not self._transport.is_closing()\n                and not self._protocol.is_at_eof\n",
   "                not self._protocol.is_at_eof\n                and not self._protocol.read_event.is_set()\n                and not self._transport.is_closing()\n")
+
+M("c18-anext-swallows-errors", "C18", "abc/_streams.py", "ByteReceiveStream.__anext__", "        except EndOfStream:", "        except (EndOfStream, OSError, Exception):", ["R18-d"])
